@@ -84,7 +84,7 @@ func (a adaptBeginUntyped[_, _]) ValueExpression() Expression {
 
 func (c Collection[Key, Value]) BeginUntyped() Iterator[any, any] {
 	return adaptBeginUntyped[Key, Value]{
-		i: c.AnyCollection.Begin(),
+		i: c.Begin(), // Handles the zero Collection, which is empty
 	}
 }
 
@@ -114,11 +114,14 @@ func (a adaptBeginValues[_, Value]) ValueExpression() Expression {
 
 func (c Collection[Key, Value]) BeginValues() Iterator[any, Value] {
 	return adaptBeginValues[Key, Value]{
-		i: c.AnyCollection.Begin(),
+		i: c.Begin(),
 	}
 }
 
 func (c Collection[_, _]) Count() (int, bool) {
+	if c.AnyCollection == nil {
+		return 0, true
+	}
 	return c.AnyCollection.Count()
 }
 
